@@ -6,7 +6,7 @@ ID = 'C12'
 HARNESSES = ['h_load.cpp']
 LEVEL = 'model_checking'
 BUDGET = {'quick': 280, 'thorough': 2400}
-BOUNDS = {'quick': 'input files with a BYTE[4], INT[4], FLOAT[4] parameter, every non-structural header word, event times/flags/labels and all data floats free (one z3 query covers all 2^8 / 2^16 / 2^32 patterns per element); first frame free in 1..65535-F; load, then save and compare the emitted bytes field by field with the input',
+BOUNDS = {'quick': 'input files with a BYTE[4], INT[4], FLOAT[4] parameter, every non-structural header word, event times/flags/labels and all data floats free (one z3 query covers all 2^8 / 2^16 / 2^32 patterns per element); first frame free in 1..65535-F; header frame rate = POINT:RATE = one free float pattern; load, then save and compare the emitted bytes field by field with the input',
           'thorough': 'same on 4 shapes and 3 layouts; 8 values per parameter'}
 OUTSIDE = 'word counts that change loop bounds (points, channels, frames are enumerated, not symbolic); integer-format data'
 ASSUMPTIONS = c02.ASSUMPTIONS + ['header scale factor: sign bit forced to 1 (float data), other 31 bits free']
@@ -26,6 +26,9 @@ def jobs(tier, seed):
                             'opts': {'extras': [e], 'events': 2, 'reserved': False, 'symbolic_meta': True}, 'free_header': True})
             out.append({'entry': 'h_load', 'harness': 'h_load.cpp', 'name': 'header-words', 'cfg': {'gens': 1, 'dump': 1, 'obsfiles': 1}, 'shape': sh, 'lay': lay,
                         'opts': {'extras': [], 'events': 18, 'symbolic_meta': True}, 'free_header': True, 'free_first': True})
+    for sh in shapes[:1]:
+        out.append({'entry': 'h_load', 'harness': 'h_load.cpp', 'name': 'header-rate', 'cfg': {'gens': 1, 'dump': 1, 'obsfiles': 1}, 'shape': dict(P=1, C=0, sub=0, F=1), 'lay': {},
+                    'opts': {'extras': [], 'events': 0, 'symbolic_meta': True, 'analog': 'empty'}, 'free_rate': True})
     return out
 
 def build(job, concrete_seed=None):
@@ -40,6 +43,11 @@ def build(job, concrete_seed=None):
         for i in range(18):
             if is_c(c.event_times[i]) and c.event_times[i] == 0 and i >= job['opts'].get('events', 0):
                 c.event_times[i] = S.f32('evt'); c.event_flags[i] = S.bv('evf', 8)
+    if job.get('free_rate'):
+        r = S.f32('rate'); c.rate = r
+        for g in c.groups:
+            for p in g.params:
+                if bytes(x for x in g.name) == b'POINT' and bytes(x for x in p.name) == b'RATE': p.values = [r]
     if job.get('free_first'):
         F = job['shape']['F']
         fst = S.bv('first', 16)
